@@ -502,6 +502,9 @@ func (idx *Index) ModifyBlocks(label uint64, sc SupervoxelChanges) error {
 				}
 				svc, found := idx.Blocks[zyx]
 				if found && svc != nil {
+					if svc.Counts == nil {
+						svc.Counts = make(map[uint64]uint32) // a block entry decoded without counts
+					}
 					oldsz := svc.Counts[supervoxel]
 					newsz := oldsz
 					if delta < 0 && uint32(-delta) > oldsz {
